@@ -9,14 +9,19 @@ namespace Pymeeus.Effects
 /-- The abstract state describes the concrete environment and the receiver's attributes. -/
 structure Rel (n0 : Nat) (args : List Val) (h : Heap) (s : AState) (e : Env) : Prop where
   live : s.dead = false
+  ne : s.exposed = false → OldClosed n0 h
   env : ∀ x, Gam n0 args h (AList.get s.env x) (e x)
   fld : ∀ id, args.getD 0 .scalar = .ref id → ∀ f, Gam n0 args h (AList.get s.fld f) (h.obj id f)
 
 theorem rel_le {n0 args h s1 s2 e} (hle : AState.le s1 s2 = true) (hr : Rel n0 args h s1 e) :
     Rel n0 args h s2 e := by
-  simp only [AState.le, hr.live, Bool.false_or, Bool.and_eq_true, Bool.not_eq_true'] at hle
-  exact ⟨hle.1.1, fun x => gam_le (alist_le_spec hle.1.2 x) (hr.env x),
+  simp only [AState.le, hr.live, Bool.false_or, Bool.and_eq_true, Bool.not_eq_true', Bool.or_eq_true] at hle
+  refine ⟨hle.1.1.1, ?_, fun x => gam_le (alist_le_spec hle.1.2 x) (hr.env x),
          fun id hid f => gam_le (alist_le_spec hle.2 f) (hr.fld id hid f)⟩
+  intro h2
+  rcases hle.1.1.2 with h1 | h1
+  · exact hr.ne h1
+  · rw [h2] at h1; cases h1
 
 theorem rel_join_left {n0 args h s1 e} (s2 : AState) (hr : Rel n0 args h s1 e) :
     Rel n0 args h (s1.join s2) e := by
@@ -24,8 +29,11 @@ theorem rel_join_left {n0 args h s1 e} (s2 : AState) (hr : Rel n0 args h s1 e) :
   simp only [hr.live, Bool.false_eq_true, if_false]
   split
   · exact hr
-  · exact ⟨rfl, fun x => gam_le (alist_join_left _ _ x) (hr.env x),
+  · refine ⟨rfl, ?_, fun x => gam_le (alist_join_left _ _ x) (hr.env x),
       fun id hid f => gam_le (alist_join_left _ _ f) (hr.fld id hid f)⟩
+    intro h2
+    simp only [Bool.or_eq_false_iff] at h2
+    exact hr.ne h2.1
 
 theorem rel_join_right {n0 args h s2 e} (s1 : AState) (hr : Rel n0 args h s2 e) :
     Rel n0 args h (s1.join s2) e := by
@@ -33,8 +41,11 @@ theorem rel_join_right {n0 args h s2 e} (s1 : AState) (hr : Rel n0 args h s2 e) 
   split
   · exact hr
   · simp only [hr.live, Bool.false_eq_true, if_false]
-    exact ⟨rfl, fun x => gam_le (alist_join_right _ _ x) (hr.env x),
+    refine ⟨rfl, ?_, fun x => gam_le (alist_join_right _ _ x) (hr.env x),
       fun id hid f => gam_le (alist_join_right _ _ f) (hr.fld id hid f)⟩
+    intro h2
+    simp only [Bool.or_eq_false_iff] at h2
+    exact hr.ne h2.2
 
 theorem gam_set {n0 args h} {l : AList} {e : Env} (x : Nat) {a v}
     (hl : ∀ y, Gam n0 args h (AList.get l y) (e y)) (hg : Gam n0 args h a v) :
@@ -52,7 +63,7 @@ theorem gam_set {n0 args h} {l : AList} {e : Env} (x : Nat) {a v}
 
 theorem rel_setVar {n0 args h s e} (x : Var) {a v} (hr : Rel n0 args h s e)
     (hg : Gam n0 args h a v) : Rel n0 args h (s.setVar x a) (e.set x v) :=
-  ⟨hr.live, gam_set x hr.env hg, hr.fld⟩
+  ⟨hr.live, hr.ne, gam_set x hr.env hg, hr.fld⟩
 
 /-! ### Loop invariants computed by `iter` -/
 
@@ -95,7 +106,8 @@ def OutOk (n0 : Nat) (args : List Val) (me : Summary) (h' : Heap) (s' : AState) 
 structure Post (n0 : Nat) (args : List Val) (me : Summary) (h h' : Heap) (s' : AState)
     (o : Outcome) : Prop where
   frame : ∀ id, id < n0 → ¬ Written me args id → h'.obj id = h.obj id
-  keep : me.keeps = true → Keep n0 h h'
+  keep : me.keeps = true → KeepOld n0 h h'
+  nonew : me.keeps = true → me.exposes = false → NoNew n0 h h'
   out : OutOk n0 args me h' s' o
 
 theorem outok_exit {n0 args me h' s1} (s2 : AState) {v x}
@@ -104,28 +116,33 @@ theorem outok_exit {n0 args me h' s1} (s2 : AState) {v x}
 
 theorem post_exit {n0 args me h h' s1} (s2 : AState) {v x}
     (hp : Post n0 args me h h' s1 (.exit v x)) : Post n0 args me h h' s2 (.exit v x) :=
-  ⟨hp.frame, hp.keep, outok_exit s2 hp.out⟩
+  ⟨hp.frame, hp.keep, hp.nonew, outok_exit s2 hp.out⟩
 
 theorem post_weaken {n0 args me h h' s1 s2 o} (hp : Post n0 args me h h' s1 o)
     (hw : ∀ e', Rel n0 args h' s1 e' → Rel n0 args h' s2 e') : Post n0 args me h h' s2 o := by
-  refine ⟨hp.frame, hp.keep, ?_⟩
+  refine ⟨hp.frame, hp.keep, hp.nonew, ?_⟩
   cases o with
   | norm e' => exact hw e' hp.out
   | exit v x => exact outok_exit s2 hp.out
 
-theorem post_seq {n0 args me h h1 h2 s1 s2 e1 o} (hm : h.next ≤ h1.next)
+theorem post_seq {n0 args me h h1 h2 s1 s2 e1 o}
     (p1 : Post n0 args me h h1 s1 (.norm e1)) (p2 : Post n0 args me h1 h2 s2 o) :
     Post n0 args me h h2 s2 o :=
   ⟨fun id hid hnw => (p2.frame id hid hnw).trans (p1.frame id hid hnw),
-   fun hk => keep_trans hm (p1.keep hk) (p2.keep hk),
+   fun hk => keepold_trans (p1.keep hk) (p2.keep hk),
+   fun hk he => nonew_trans (p1.nonew hk he) (p2.nonew hk he),
    p2.out⟩
 
+/-- A statement that does not touch the heap. -/
+theorem post_same {n0 args me h s' o} (ho : OutOk n0 args me h s' o) : Post n0 args me h h s' o :=
+  ⟨fun _ _ _ => rfl, fun _ => keepold_refl _ _, fun _ _ => nonew_refl _ _, ho⟩
+
 /-- Transport of `Rel` along a heap change that keeps closedness and does not touch the receiver. -/
-theorem rel_transport {n0 args h h' s e} (hk : Keep n0 h h') (hn : n0 ≤ h.next)
+theorem rel_transport {n0 args h h' s e} (hk : Keep n0 h h') (hnn : NoNew n0 h h') (hn : n0 ≤ h.next)
     (hargs : ∀ i, WFVal n0 (args.getD i .scalar)) (hw : WFHeap h) (he : WFEnv h e)
     (hself : ∀ id, args.getD 0 .scalar = .ref id → h'.obj id = h.obj id)
     (hr : Rel n0 args h s e) : Rel n0 args h' s e := by
-  refine ⟨hr.live, fun x => gam_keep hk (he x) (hr.env x), ?_⟩
+  refine ⟨hr.live, fun hx => oldclosed_nonew (hr.ne hx) hnn, fun x => gam_keep hk (he x) (hr.env x), ?_⟩
   intro id hid f
   rw [hself id hid]
   have hlt : id < h.next := Nat.lt_of_lt_of_le (hargs 0 id hid) hn
@@ -164,6 +181,34 @@ theorem storeFld_dead (s : AState) (ax sel ay) : (s.storeFld ax sel ay).dead = s
   unfold AState.storeFld
   split <;> rfl
 
+theorem storeFld_exposed (s : AState) (ax sel ay) : (s.storeFld ax sel ay).exposed = s.exposed := by
+  unfold AState.storeFld
+  split <;> rfl
+
+theorem storeFld_mark (s : AState) (ax sel ay) : (s.storeFld ax sel ay).mark = s.mark.storeFld ax sel ay := by
+  unfold AState.storeFld
+  split <;> rfl
+
+theorem expose_some {me : Summary} {s s' : AState} (h : s.expose me = some s') :
+    s' = s.mark ∧ ¬ (me.keeps = true ∧ me.exposes = false) := by
+  unfold AState.expose at h
+  by_cases hc : (me.keeps && !me.exposes) = true
+  · simp [hc] at h
+  · simp only [hc, Bool.false_eq_true, if_false, Option.some.injEq] at h
+    refine ⟨h.symm, ?_⟩
+    rintro ⟨h1, h2⟩
+    simp [h1, h2] at hc
+
+/-- a variable through which a write is permitted and which is not a parameter holds a new object -/
+theorem nonparam_new {n0 args h me ax id} (hwr : writable me ax = true) (hp : ax.isParam = false)
+    (hg : Gam n0 args h ax (.ref id)) : n0 ≤ id := by
+  cases ax with
+  | scal => simp [Gam] at hg
+  | closed => exact hg id rfl id (Reach.refl id)
+  | fresh => exact hg id rfl
+  | param i => simp [AVal.isParam] at hp
+  | any => simp [writable] at hwr
+
 theorem write_obj_ne {h : Heap} {id k v i} (hne : i ≠ id) : (h.write id k v).obj i = h.obj i := by
   simp [Heap.write, hne]
 
@@ -176,6 +221,7 @@ theorem rel_storeFld {n0 args} {h : Heap} {s1 : AState} {e : Env} {ax : AVal} {s
     {id k : Nat} {me : Summary} {vy : Val}
     (hargs : ∀ i, WFVal n0 (args.getD i .scalar))
     (hlive : s1.dead = false)
+    (hne : s1.exposed = false → OldClosed n0 (h.write id k vy))
     (hwr : writable me ax = true)
     (hax : Gam n0 args h ax (.ref id))
     (hpick : sel.picks k)
@@ -184,7 +230,8 @@ theorem rel_storeFld {n0 args} {h : Heap} {s1 : AState} {e : Env} {ax : AVal} {s
       ∀ f, Gam n0 args (h.write id k vy) (AList.get s1.fld f) (h.obj sid f))
     (hay : Gam n0 args (h.write id k vy) ay vy) :
     Rel n0 args (h.write id k vy) (s1.storeFld ax sel ay) e := by
-  refine ⟨by rw [storeFld_dead]; exact hlive, fun x => by rw [storeFld_env]; exact henv x, ?_⟩
+  refine ⟨by rw [storeFld_dead]; exact hlive, by rw [storeFld_exposed]; exact hne,
+    fun x => by rw [storeFld_env]; exact henv x, ?_⟩
   intro sid hsid f
   have hsidlt : sid < n0 := hargs 0 sid hsid
   cases ax with
@@ -262,30 +309,78 @@ theorem store_post {n0 args me} {h : Heap} {s s' : AState} {e : Env} {x y : Var}
       by_cases hii : i = id
       · subst hii; exact absurd (writable_written hwr hax hi) hnw
       · exact write_obj_ne hii
+    have hfldold : ∀ sid, args.getD 0 .scalar = .ref sid → sid < h.next :=
+      fun sid hsid => Nat.lt_of_lt_of_le (hargs 0 sid hsid) hn
     by_cases hst : (AList.get s.env y).storable = true
-    · simp only [hst, if_true, Option.some.injEq] at ha
-      subst ha
+    · simp only [hst, if_true] at ha
       have hk : Keep n0 h (h.write id k (e y)) := keep_write hst (hr.env y)
-      refine ⟨hframe, fun _ => hk, ?_⟩
-      refine rel_storeFld hargs hr.live hwr hax hp (fun v => gam_keep hk (he v) (hr.env v)) ?_
-        (gam_keep hk (he y) (hr.env y))
-      intro sid hsid f
-      exact gam_keep hk (hw sid f (Nat.lt_of_lt_of_le (hargs 0 sid hsid) hn)) (hr.fld sid hsid f)
-    · simp only [hst] at ha
-      by_cases hkp : me.keeps = true
-      · simp [hkp] at ha
-      · simp only [hkp, Bool.false_eq_true, if_false, Option.some.injEq] at ha
+      have henv' : ∀ v, Gam n0 args (h.write id k (e y)) (AList.get s.env v) (e v) :=
+        fun v => gam_keep hk (he v) (hr.env v)
+      have hfld' : ∀ sid, args.getD 0 .scalar = .ref sid →
+          ∀ f, Gam n0 args (h.write id k (e y)) (AList.get s.fld f) (h.obj sid f) :=
+        fun sid hsid f => gam_keep hk (hw sid f (hfldold sid hsid)) (hr.fld sid hsid f)
+      have hay' := gam_keep hk (he y) (hr.env y)
+      by_cases hex : ((AList.get s.env x).isParam && AList.get s.env y == AVal.closed) = true
+      · -- a reference to a new closed object goes into a parameter's object
+        simp only [hex, if_true] at ha
+        obtain ⟨hs', hflags⟩ := expose_some ha
+        subst hs'
+        refine ⟨hframe, fun _ => keepold_of_keep hn hk, fun h1 h2 => absurd ⟨h1, h2⟩ hflags, ?_⟩
+        rw [storeFld_mark]
+        exact rel_storeFld (s1 := s.mark) hargs hr.live (fun hc => by simp [AState.mark] at hc) hwr hax hp
+          henv' hfld' hay'
+      · simp only [hex, Bool.false_eq_true, if_false, Option.some.injEq] at ha
         subst ha
-        refine ⟨hframe, fun hk => absurd hk hkp, ?_⟩
-        have hne : AList.get s.env y ≠ .closed := by
-          intro hc; rw [hc] at hst; simp [AVal.storable] at hst
-        refine rel_storeFld hargs hr.live hwr hax hp ?_ ?_ (gam_heap_indep hne (hr.env y))
-        · intro v
-          simp only [AState.degrade, alist_get_map_degrade]
-          exact gam_degrade (hr.env v)
-        · intro sid hsid f
-          simp only [AState.degrade, alist_get_map_degrade]
-          exact gam_degrade (hr.fld sid hsid f)
+        have hnn : NoNew n0 h (h.write id k (e y)) := by
+          by_cases hpar : (AList.get s.env x).isParam = true
+          · have hyc : AList.get s.env y ≠ .closed := by
+              intro hc; simp [hpar, hc] at hex
+            have hys : AList.get s.env y = .scal := by
+              cases hy : AList.get s.env y <;> simp [hy, AVal.storable] at hst hyc ⊢
+            have := hr.env y
+            rw [hys] at this
+            simp only [Gam] at this
+            rw [this]; exact nonew_write_scalar
+          · exact nonew_of_untouched (write_untouched (nonparam_new hwr (by simpa using hpar) hax))
+        refine ⟨hframe, fun _ => keepold_of_keep hn hk, fun _ _ => hnn, ?_⟩
+        exact rel_storeFld hargs hr.live (fun hc => oldclosed_nonew (hr.ne hc) hnn) hwr hax hp henv' hfld' hay'
+    · simp only [hst, Bool.false_eq_true, if_false] at ha
+      have hne : AList.get s.env y ≠ .closed := by
+        intro hc; rw [hc] at hst; simp [AVal.storable] at hst
+      have henv' : ∀ v, Gam n0 args (h.write id k (e y)) (AList.get s.degrade.env v) (e v) := by
+        intro v
+        simp only [AState.degrade, alist_get_map_degrade]
+        exact gam_degrade (hr.env v)
+      have hfld' : ∀ sid, args.getD 0 .scalar = .ref sid →
+          ∀ f, Gam n0 args (h.write id k (e y)) (AList.get s.degrade.fld f) (h.obj sid f) := by
+        intro sid hsid f
+        simp only [AState.degrade, alist_get_map_degrade]
+        exact gam_degrade (hr.fld sid hsid f)
+      have hay' : Gam n0 args (h.write id k (e y)) (AList.get s.env y) (e y) := gam_heap_indep hne (hr.env y)
+      by_cases hpar : (AList.get s.env x).isParam = true
+      · simp only [hpar, if_true] at ha
+        by_cases hkp : me.keeps = true
+        · simp [hkp] at ha
+        · simp only [hkp, Bool.false_eq_true, if_false, Option.some.injEq] at ha
+          subst ha
+          refine ⟨hframe, fun hk => absurd hk hkp, fun hk => absurd hk hkp, ?_⟩
+          rw [storeFld_mark]
+          exact rel_storeFld (s1 := s.degrade.mark) hargs hr.live (fun hc => by simp [AState.mark] at hc) hwr hax hp
+            henv' hfld' hay'
+      · simp only [hpar, Bool.false_eq_true, if_false] at ha
+        have hunt := write_untouched (h := h) (k := k) (v := e y) (nonparam_new hwr (by simpa using hpar) hax)
+        have hnn : NoNew n0 h (h.write id k (e y)) := nonew_of_untouched hunt
+        by_cases hkx : (me.keeps && s.exposed) = true
+        · simp [hkx] at ha
+        · simp only [hkx, Bool.false_eq_true, if_false, Option.some.injEq] at ha
+          subst ha
+          refine ⟨hframe, ?_, fun _ _ => hnn, ?_⟩
+          · intro hk
+            have hxe : s.exposed = false := by
+              cases hse : s.exposed <;> simp [hk, hse] at hkx ⊢
+            exact keepold_of_untouched (hr.ne hxe) hunt
+          · exact rel_storeFld (s1 := s.degrade) hargs hr.live
+              (fun hc => oldclosed_nonew (hr.ne hc) hnn) hwr hax hp henv' hfld' hay'
   · simp [hwr] at ha
 
 
@@ -331,6 +426,7 @@ theorem call_post {n0 args me cs} {h h' : Heap} {s s' : AState} {e : Env} {x : V
     (hr : Rel n0 args h s e)
     (hframe : ∀ id, id < h.next → ¬ Written cs (ys.map e) id → h'.obj id = h.obj id)
     (hkeep : cs.keeps = true → Keep h.next h h')
+    (hnonew : cs.keeps = true → cs.exposes = false → NoNew h.next h h')
     (hv : Gam h.next (ys.map e) h' cs.ret vr) :
     Post n0 args me h h' s' (.norm (e.set x vr)) := by
   unfold acall at ha
@@ -359,55 +455,61 @@ theorem call_post {n0 args me cs} {h h' : Heap} {s s' : AState} {e : Env} {x : V
       rintro ⟨i, hi, heq⟩
       obtain ⟨hwr, hg, _⟩ := hwa i hi id heq
       exact hnw (writable_written hwr hg hid)
-    -- the receiver is untouched unless a parameter is passed in a written position
-    have hself : (cs.writes.any fun i => (AList.get (ys.map (AList.get s.env)) i).isParam) = false →
-        ∀ sid, args.getD 0 .scalar = .ref sid → h'.obj sid = h.obj sid := by
-      intro hany sid hsid
-      have hsl : sid < n0 := hargs 0 sid hsid
-      refine hframe sid (Nat.lt_of_lt_of_le hsl hn) ?_
+    -- no object that existed at activation start is touched unless a parameter is passed in a written position
+    have hold : (cs.writes.any fun i => (AList.get (ys.map (AList.get s.env)) i).isParam) = false →
+        ∀ a, a < n0 → h'.obj a = h.obj a := by
+      intro hany a hal
+      refine hframe a (Nat.lt_of_lt_of_le hal hn) ?_
       rintro ⟨i, hi, heq⟩
-      obtain ⟨hwr, hg, hidx⟩ := hwa i hi sid heq
+      obtain ⟨hwr, hg, hidx⟩ := hwa i hi a heq
       have hnp : (AList.get (ys.map (AList.get s.env)) i).isParam = false := by
         rw [List.any_eq_false] at hany
         simpa using hany i hi
       rw [hidx] at hnp
-      cases hc : AList.get s.env ys[i]! with
-      | scal => rw [hc] at hg; simp [Gam] at hg
-      | closed => rw [hc] at hg; exact absurd (hg sid rfl sid (Reach.refl sid)) (by omega)
-      | fresh => rw [hc] at hg; exact absurd (hg sid rfl) (by omega)
-      | param j => rw [hc] at hnp; simp [AVal.isParam] at hnp
-      | any => rw [hc] at hwr; simp [writable] at hwr
-    generalize hs1 : (if (cs.writes.any fun i => (AList.get (ys.map (AList.get s.env)) i).isParam) = true
-      then s.forget else s) = s1 at ha
+      have := nonparam_new hwr hnp hg
+      omega
+    have hself : (cs.writes.any fun i => (AList.get (ys.map (AList.get s.env)) i).isParam) = false →
+        ∀ sid, args.getD 0 .scalar = .ref sid → h'.obj sid = h.obj sid :=
+      fun hany sid hsid => hold hany sid (hargs 0 sid hsid)
+    generalize htch : (cs.writes.any fun i => (AList.get (ys.map (AList.get s.env)) i).isParam) = touches
+      at ha hold hself
+    generalize hs1 : (if touches = true then s.forget else s) = s1 at ha
     have hs1env : s1.env = s.env := by
       rw [← hs1]; split <;> rfl
-    -- the intermediate state, in the new heap, under `Keep`
-    have hrel1 : Keep n0 h h' → Rel n0 args h' s1 e := by
-      intro hk
-      by_cases hany : (cs.writes.any fun i => (AList.get (ys.map (AList.get s.env)) i).isParam) = true
-      · rw [← hs1]; simp only [hany, if_true]
-        refine ⟨hr.live, fun v => gam_keep hk (he v) (hr.env v), ?_⟩
-        intro sid _ f
-        simp only [AState.forget, alist_get_map_any]; trivial
-      · rw [← hs1]; simp only [hany, Bool.false_eq_true, if_false]
-        exact rel_transport hk hn hargs hw he (hself (by simpa using hany)) hr
     have hs1live : s1.dead = false := by
       rw [← hs1]; split <;> exact hr.live
-    have hrel2 : Rel n0 args h' s1.degrade e := by
-      refine ⟨hs1live, ?_, ?_⟩
+    have hs1exp : s1.exposed = s.exposed := by
+      rw [← hs1]; split <;> rfl
+    -- the intermediate state (and any state that differs from it in the `exposed` flag only)
+    have hrel1 : Keep n0 h h' → ∀ sx : AState, sx.env = s1.env → sx.fld = s1.fld → sx.dead = s1.dead →
+        (sx.exposed = false → OldClosed n0 h') → Rel n0 args h' sx e := by
+      intro hk sx h1 h2 h3 hne
+      refine ⟨by rw [h3]; exact hs1live, hne, fun v => by rw [h1, hs1env]; exact gam_keep hk (he v) (hr.env v), ?_⟩
+      intro sid hsid f
+      rw [h2]
+      by_cases hany : touches = true
+      · rw [← hs1]; simp only [hany, if_true, AState.forget, alist_get_map_any]; trivial
+      · rw [← hs1]; simp only [hany, Bool.false_eq_true, if_false]
+        rw [hself (by simpa using hany) sid hsid]
+        exact gam_keep hk (hw sid f (Nat.lt_of_lt_of_le (hargs 0 sid hsid) hn)) (hr.fld sid hsid f)
+    have hrel2 : ∀ sx : AState, sx.env = s1.degrade.env → sx.fld = s1.degrade.fld → sx.dead = s1.dead →
+        (sx.exposed = false → OldClosed n0 h') → Rel n0 args h' sx e := by
+      intro sx h1 h2 h3 hne
+      refine ⟨by rw [h3]; exact hs1live, hne, ?_, ?_⟩
       · intro v
+        rw [h1]
         simp only [AState.degrade, alist_get_map_degrade, hs1env]
         exact gam_degrade (hr.env v)
       · intro sid hsid f
-        by_cases hany : (cs.writes.any fun i => (AList.get (ys.map (AList.get s.env)) i).isParam) = true
+        rw [h2]
+        by_cases hany : touches = true
         · rw [← hs1]; simp only [hany, if_true, AState.degrade, AState.forget, alist_get_map_degrade,
             alist_get_map_any, AVal.degrade]; trivial
         · rw [← hs1]; simp only [hany, Bool.false_eq_true, if_false, AState.degrade, alist_get_map_degrade]
           rw [hself (by simpa using hany) sid hsid]
           exact gam_degrade (hr.fld sid hsid f)
     by_cases hA : (cs.writes.isEmpty || cs.keeps) = true
-    · simp only [hA, if_true, Option.some.injEq] at ha
-      subst ha
+    · simp only [hA, if_true] at ha
       have hk : Keep n0 h h' := by
         simp only [Bool.or_eq_true] at hA
         rcases hA with hA | hA
@@ -416,20 +518,65 @@ theorem call_post {n0 args me cs} {h h' : Heap} {s s' : AState} {e : Env} {x : V
           rw [List.isEmpty_iff] at hA
           rw [hA] at hi; cases hi
         · exact keep_mono hn (hkeep hA)
-      refine ⟨hfr, fun _ => hk, ?_⟩
-      have hrel := hrel1 hk
-      refine rel_setVar x hrel ?_
-      exact gam_instRet (l := s.env) (fun v => by have := hrel.env v; rwa [hs1env] at this) hn hv
-    · simp only [hA, Bool.false_eq_true, if_false] at ha
-      by_cases hkp : me.keeps = true
-      · simp [hkp] at ha
-      · simp only [hkp, Bool.false_eq_true, if_false, Option.some.injEq] at ha
+      have hvx : Gam n0 args h' (instRet (ys.map (AList.get s.env)) cs.ret) vr :=
+        gam_instRet (l := s.env) (fun v => gam_keep hk (he v) (hr.env v)) hn hv
+      by_cases hE : (touches && cs.exposes) = true
+      · simp only [hE, if_true] at ha
+        obtain ⟨hs', hflags⟩ := expose_some ha
+        subst hs'
+        refine ⟨hfr, fun _ => keepold_of_keep hn hk, fun h1 h2 => absurd ⟨h1, h2⟩ hflags, ?_⟩
+        have hrel := hrel1 hk s1.mark rfl rfl rfl (fun hc => by simp [AState.mark] at hc)
+        exact rel_setVar x hrel hvx
+      · simp only [hE, Bool.false_eq_true, if_false, Option.some.injEq] at ha
         subst ha
-        refine ⟨hfr, fun hk => absurd hk hkp, ?_⟩
-        refine rel_setVar x hrel2 ?_
-        exact gam_instRet (l := s1.degrade.env) hrel2.env hn hv
+        have hnn : NoNew n0 h h' := by
+          by_cases hany : touches = true
+          · have hce : cs.exposes = false := by
+              cases hc : cs.exposes <;> simp [hany, hc] at hE ⊢
+            have hne : cs.writes ≠ [] := by
+              intro hc
+              have : touches = false := by rw [← htch, hc]; rfl
+              rw [this] at hany; cases hany
+            have hck : cs.keeps = true := by
+              simp only [Bool.or_eq_true, List.isEmpty_iff] at hA
+              rcases hA with hA | hA
+              · exact absurd hA hne
+              · exact hA
+            exact nonew_mono hn (hnonew hck hce)
+          · exact nonew_of_untouched (hold (by simpa using hany))
+        refine ⟨hfr, fun _ => keepold_of_keep hn hk, fun _ _ => hnn, ?_⟩
+        have hrel := hrel1 hk s1 rfl rfl rfl (fun hc => oldclosed_nonew (hr.ne (hs1exp ▸ hc)) hnn)
+        exact rel_setVar x hrel hvx
+    · simp only [hA, Bool.false_eq_true, if_false] at ha
+      have hvx2 : ∀ sx : AState, sx.env = s1.degrade.env → Rel n0 args h' sx e →
+          Gam n0 args h' (instRet (ys.map (AList.get s1.degrade.env)) cs.ret) vr := by
+        intro sx h1 hrel
+        exact gam_instRet (l := s1.degrade.env) (fun v => by have := hrel.env v; rwa [h1] at this) hn hv
+      by_cases hany : touches = true
+      · simp only [hany, if_true] at ha
+        by_cases hkp : me.keeps = true
+        · simp [hkp] at ha
+        · simp only [hkp, Bool.false_eq_true, if_false, Option.some.injEq] at ha
+          subst ha
+          refine ⟨hfr, fun hk => absurd hk hkp, fun hk => absurd hk hkp, ?_⟩
+          have hrel := hrel2 s1.degrade.mark rfl rfl rfl (fun hc => by simp [AState.mark] at hc)
+          exact rel_setVar x hrel (hvx2 s1.degrade.mark rfl hrel)
+      · simp only [hany, Bool.false_eq_true, if_false] at ha
+        have hunt := hold (by simpa using hany)
+        have hnn : NoNew n0 h h' := nonew_of_untouched hunt
+        by_cases hkx : (me.keeps && s.exposed) = true
+        · simp [hkx] at ha
+        · simp only [hkx, Bool.false_eq_true, if_false, Option.some.injEq] at ha
+          subst ha
+          refine ⟨hfr, ?_, fun _ _ => hnn, ?_⟩
+          · intro hk
+            have hxe : s.exposed = false := by
+              cases hse : s.exposed <;> simp [hk, hse] at hkx ⊢
+            exact keepold_of_untouched (hr.ne hxe) hunt
+          · have hrel := hrel2 s1.degrade rfl rfl rfl
+              (fun hc => oldclosed_nonew (hr.ne (by rw [← hs1exp]; exact hc)) hnn)
+            exact rel_setVar x hrel (hvx2 _ rfl hrel)
   · simp [hall] at ha
-
 
 /-- Every function body is accepted by the abstract execution against its annotated summary. -/
 def Checked (P : Program) : Prop :=
@@ -439,9 +586,9 @@ def Checked (P : Program) : Prop :=
 theorem sums_get {P : Program} {g : Nat} {fd : FunDecl} (h : P.funs[g]? = some fd) : P.sums[g]? = some fd.sum := by
   simp [Program.sums, List.getElem?_map, h]
 
-theorem entry_rel (nf : Nat) (fd : FunDecl) (n0 : Nat) (vals : List Val) (h : Heap) :
+theorem entry_rel (nf : Nat) (fd : FunDecl) {n0 : Nat} (vals : List Val) {h : Heap} (hoc : OldClosed n0 h) :
     Rel n0 vals h (entryState nf fd) (entryEnv fd.nparams vals) := by
-  refine ⟨rfl, ?_, ?_⟩
+  refine ⟨rfl, fun _ => hoc, ?_, ?_⟩
   · intro x
     unfold entryState entryEnv AList.get
     simp only [List.getD_eq_getElem?_getD]
@@ -469,7 +616,7 @@ theorem sound_stmt {P : Program} (hc : Checked P) {c h e h' o} (hex : Exec P c h
   | skip =>
     intro me n0 args s s' ha _ _ _ _ hr
     simp only [aexec, Option.some.injEq] at ha; subst ha
-    exact ⟨fun _ _ _ => rfl, fun _ => keep_refl _ _, hr⟩
+    exact post_same (hr)
   | seqN h1 _ ih1 ih2 =>
     intro me n0 args s s' ha hn hargs hw he hr
     simp only [aexec] at ha
@@ -479,7 +626,7 @@ theorem sound_stmt {P : Program} (hc : Checked P) {c h e h' o} (hex : Exec P c h
       obtain ⟨hw1, hm1, he1⟩ := exec_wf h1 hw he
       have p1 := ih1 me n0 args s s1 hs1 hn hargs hw he hr
       have p2 := ih2 me n0 args s1 s' ha (Nat.le_trans hn hm1) hargs hw1 he1 p1.out
-      exact post_seq hm1 p1 p2
+      exact post_seq p1 p2
   | seqX _ ih1 =>
     intro me n0 args s s' ha hn hargs hw he hr
     simp only [aexec] at ha
@@ -490,15 +637,15 @@ theorem sound_stmt {P : Program} (hc : Checked P) {c h e h' o} (hex : Exec P c h
   | scalar =>
     intro me n0 args s s' ha _ _ _ _ hr
     simp only [aexec, Option.some.injEq] at ha; subst ha
-    exact ⟨fun _ _ _ => rfl, fun _ => keep_refl _ _, rel_setVar _ hr rfl⟩
+    exact post_same (rel_setVar _ hr rfl)
   | alias =>
     intro me n0 args s s' ha _ _ _ _ hr
     simp only [aexec, Option.some.injEq] at ha; subst ha
-    exact ⟨fun _ _ _ => rfl, fun _ => keep_refl _ _, rel_setVar _ hr (hr.env _)⟩
+    exact post_same (rel_setVar _ hr (hr.env _))
   | global _ =>
     intro me n0 args s s' ha _ _ _ _ hr
     simp only [aexec, Option.some.injEq] at ha; subst ha
-    exact ⟨fun _ _ _ => rfl, fun _ => keep_refl _ _, rel_setVar _ hr trivial⟩
+    exact post_same (rel_setVar _ hr trivial)
   | @new x h e =>
     intro me n0 args s s' ha hn hargs hw he hr
     simp only [aexec, Option.some.injEq] at ha; subst ha
@@ -506,9 +653,10 @@ theorem sound_stmt {P : Program} (hc : Checked P) {c h e h' o} (hex : Exec P c h
       intro id hid
       have : id ≠ h.next := by omega
       simp [Heap.alloc, this]
-    refine ⟨fun id hid _ => hobj id (by omega), fun _ => keep_alloc _ _, ?_⟩
+    have hnn : NoNew n0 h h.alloc := nonew_of_untouched (alloc_untouched hn)
+    refine ⟨fun id hid _ => hobj id (by omega), fun _ => keepold_of_keep hn (keep_alloc _ _), fun _ _ => hnn, ?_⟩
     have hr' : Rel n0 args h.alloc s e :=
-      rel_transport (keep_alloc n0 h) hn hargs hw he
+      rel_transport (keep_alloc n0 h) hnn hn hargs hw he
         (fun id hid => hobj id (Nat.lt_of_lt_of_le (hargs 0 id hid) hn)) hr
     refine rel_setVar x hr' ?_
     intro id hid o ho
@@ -517,7 +665,7 @@ theorem sound_stmt {P : Program} (hc : Checked P) {c h e h' o} (hex : Exec P c h
   | @load x y sel h e id k hy hp =>
     intro me n0 args s s' ha _ _ _ _ hr
     simp only [aexec, Option.some.injEq] at ha; subst ha
-    exact ⟨fun _ _ _ => rfl, fun _ => keep_refl _ _, rel_setVar _ hr (gam_aload hr hy hp)⟩
+    exact post_same (rel_setVar _ hr (gam_aload hr hy hp))
   | @store x sel y h e id k hx hp =>
     intro me n0 args s s' ha hn hargs hw he hr
     simp only [aexec] at ha
@@ -527,23 +675,23 @@ theorem sound_stmt {P : Program} (hc : Checked P) {c h e h' o} (hex : Exec P c h
     simp only [aexec, sums_get hfd] at ha
     obtain ⟨sc, hsc⟩ := hc g fd hfd
     have pc := ih fd.sum h.next (ys.map e) _ sc hsc (Nat.le_refl _) (wf_args_map he ys) hw
-      (wfenv_entry _ _ he) (entry_rel _ _ _ _ _)
-    exact call_post ha hn hargs hw he hr pc.frame pc.keep pc.out
+      (wfenv_entry _ _ he) (entry_rel _ _ _ (oldclosed_of_wf hw))
+    exact call_post ha hn hargs hw he hr pc.frame pc.keep pc.nonew pc.out
   | @callFall x g ys h e fd h' e' hfd hbody ih =>
     intro me n0 args s s' ha hn hargs hw he hr
     simp only [aexec, sums_get hfd] at ha
     obtain ⟨sc, hsc⟩ := hc g fd hfd
     have pc := ih fd.sum h.next (ys.map e) _ sc hsc (Nat.le_refl _) (wf_args_map he ys) hw
-      (wfenv_entry _ _ he) (entry_rel _ _ _ _ _)
-    exact call_post ha hn hargs hw he hr pc.frame pc.keep (gam_scalar _ _ _ _)
+      (wfenv_entry _ _ he) (entry_rel _ _ _ (oldclosed_of_wf hw))
+    exact call_post ha hn hargs hw he hr pc.frame pc.keep pc.nonew (gam_scalar _ _ _ _)
   | @callExc x g ys h e fd h' v hfd hbody ih =>
     intro me n0 args s s' ha hn hargs hw he hr
     simp only [aexec, sums_get hfd] at ha
     obtain ⟨sc, hsc⟩ := hc g fd hfd
     have pc := ih fd.sum h.next (ys.map e) _ sc hsc (Nat.le_refl _) (wf_args_map he ys) hw
-      (wfenv_entry _ _ he) (entry_rel _ _ _ _ _)
-    have pp := call_post (vr := .scalar) ha hn hargs hw he hr pc.frame pc.keep (gam_scalar _ _ _ _)
-    exact ⟨pp.frame, pp.keep, trivial⟩
+      (wfenv_entry _ _ he) (entry_rel _ _ _ (oldclosed_of_wf hw))
+    have pp := call_post (vr := .scalar) ha hn hargs hw he hr pc.frame pc.keep pc.nonew (gam_scalar _ _ _ _)
+    exact ⟨pp.frame, pp.keep, pp.nonew, trivial⟩
   | iteL _ ih =>
     intro me n0 args s s' ha hn hargs hw he hr
     simp only [aexec] at ha
@@ -563,7 +711,7 @@ theorem sound_stmt {P : Program} (hc : Checked P) {c h e h' o} (hex : Exec P c h
   | whileDone =>
     intro me n0 args s s' ha _ _ _ _ hr
     simp only [aexec] at ha
-    exact ⟨fun _ _ _ => rfl, fun _ => keep_refl _ _, (iter_spec ha).1 _ _ _ _ hr⟩
+    exact post_same ((iter_spec ha).1 _ _ _ _ hr)
   | @whileStep c h e h1 e1 h2 o hb _ ih1 ih2 =>
     intro me n0 args s s' ha hn hargs hw he hr
     simp only [aexec] at ha
@@ -574,7 +722,7 @@ theorem sound_stmt {P : Program} (hc : Checked P) {c h e h' o} (hex : Exec P c h
     have p1 := ih1 me n0 args s' sb hsb hn hargs hw he (hinv _ _ _ _ hr)
     have p1' : Post n0 args me h h1 s' (.norm e1) := post_weaken p1 (fun _ h => rel_le hle h)
     have p2 := ih2 me n0 args s' s' hfix (Nat.le_trans hn hm1) hargs hw1 he1 p1'.out
-    exact post_seq hm1 p1' p2
+    exact post_seq p1' p2
   | @whileExit c h e h1 v x _ ih1 =>
     intro me n0 args s s' ha hn hargs hw he hr
     simp only [aexec] at ha
@@ -585,10 +733,10 @@ theorem sound_stmt {P : Program} (hc : Checked P) {c h e h' o} (hex : Exec P c h
     simp only [aexec] at ha
     split at ha
     · rename_i hle
-      exact ⟨fun _ _ _ => rfl, fun _ => keep_refl _ _, gam_le hle (hr.env _)⟩
+      exact post_same (gam_le hle (hr.env _))
     · cases ha
   | raise =>
     intro me n0 args s s' _ _ _ _ _ _
-    exact ⟨fun _ _ _ => rfl, fun _ => keep_refl _ _, trivial⟩
+    exact post_same (trivial)
 
 end Pymeeus.Effects
